@@ -7,7 +7,7 @@ EXTENDS AxisMap, TLC, Json
 
 CONSTANTS Hi, MaxKnots
 
-VARIABLES us, ds
+VARIABLES us, ds, kn     \* kn: the knot list of the chosen map, kept as a value (TLC re-evaluates definitions)
 Q == 0..Hi
 Q4(n) == Norm(n, 4)
 Eval == {Norm(n, 8) : n \in (-4)..(2 * Hi + 4)}
@@ -16,7 +16,8 @@ RECURSIVE Sorted(_)
 Sorted(S) == IF S = {} THEN <<>> ELSE LET m == CHOOSE x \in S : \A y \in S : x <= y IN <<m>> \o Sorted(S \ {m})
 
 (* us: set of distinct user knots; ds: weakly increasing sequence of design values *)
-Knots == LET u == Sorted(us) IN [i \in 1..Len(u) |-> <<Q4(u[i]), Q4(ds[i])>>]
+KnotsOf(U, D) == LET u == Sorted(U) IN [i \in 1..Len(u) |-> <<Q4(u[i]), Q4(D[i])>>]
+Knots == kn
 
 RECURSIVE Mono(_, _)
 Mono(k, lo) == IF k = 0 THEN {<<>>} ELSE UNION {{<<d>> \o t : t \in Mono(k - 1, d)} : d \in lo..Hi}
@@ -24,18 +25,20 @@ Mono(k, lo) == IF k = 0 THEN {<<>>} ELSE UNION {{<<d>> \o t : t \in Mono(k - 1, 
 (* two levels so that TLC's workers share the maps: the user knots are the initial
    states, the design values are chosen in Next; the laws are evaluated on successors *)
 Init == /\ us \in {S \in SUBSET Q : Cardinality(S) <= MaxKnots}
-        /\ ds = <<-1>>
+        /\ ds = <<-1>> /\ kn = <<>>
 Next == /\ ds = <<-1>>
         /\ ds' \in Mono(Cardinality(us), 0)
+        /\ kn' = KnotsOf(us, ds')
         /\ UNCHANGED us
 Chosen == ds # <<-1>>
 
 Strict == Chosen /\ StrictlyIncreasing(Knots)
-Laws == Chosen => LET K == Knots strict == StrictlyIncreasing(K) IN
-   /\ \A v \in Eval : LET f == Fwd(K, v) S == BwdSet(K, v) IN
-         /\ IsRat(f) /\ Fits(f)                                   \* Closed
-         /\ \A u \in S : IsRat(u) /\ Fwd(K, u) = v                 \* RightInverse
-         /\ strict => (Bwd(K, f) = v /\ Fwd(K, Bwd(K, v)) = v)     \* InverseOnMonotone
-   /\ \A i \in 1..Len(K) : Fwd(K, K[i][1]) = K[i][2]              \* OnKnots
-   /\ PrintT(<<"GEN", ToJson([k |-> K, strict |-> strict])>>)
+LawsAt(v, strict) == LET f == Fwd(kn, v) S == BwdSet(kn, v) IN
+         /\ IsRat(f) /\ Fits(f)                                     \* Closed
+         /\ \A u \in S : IsRat(u) /\ Fwd(kn, u) = v                 \* RightInverse
+         /\ strict => (Bwd(kn, f) = v /\ Fwd(kn, Bwd(kn, v)) = v)    \* InverseOnMonotone
+Laws == Chosen =>
+   /\ IF StrictlyIncreasing(kn) THEN \A v \in Eval : LawsAt(v, TRUE) ELSE \A v \in Eval : LawsAt(v, FALSE)
+   /\ \A i \in 1..Len(kn) : Fwd(kn, kn[i][1]) = kn[i][2]            \* OnKnots
+   /\ PrintT(<<"GEN", ToJson([k |-> kn, strict |-> StrictlyIncreasing(kn)])>>)
 =============================================================================
